@@ -3300,6 +3300,26 @@ impl IceCandidate {
             None
         };
 
+        // Parse the optional related address (RFC 8839 § 5.1: "raddr" <addr> "rport" <port>),
+        // found among the extension pairs after the candidate type.
+        let related_address = {
+            let mut raddr: Option<IpAddr> = None;
+            let mut rport: Option<u16> = None;
+            let mut i = 8;
+            while i + 1 < parts.len() {
+                match parts[i] {
+                    "raddr" => raddr = parts[i + 1].parse().ok(),
+                    "rport" => rport = parts[i + 1].parse().ok(),
+                    _ => {}
+                }
+                i += 2;
+            }
+            match (raddr, rport) {
+                (Some(ip), Some(port)) => Some(SocketAddr::new(ip, port)),
+                _ => None,
+            }
+        };
+
         Ok(Self {
             foundation,
             priority,
@@ -3307,7 +3327,7 @@ impl IceCandidate {
             typ,
             transport,
             tcp_type,
-            related_address: None,
+            related_address,
             component,
         })
     }
